@@ -8,7 +8,7 @@ import z3
 
 from . import libmodels
 from .engine import Run, _Break, _Continue, _Return
-from .values import (UNDEF, MaybeUnbound, PathDead, SBoundLib, SClass, SEnumMember, SExcClass, SFunc, SIdx,
+from .values import (SArr, UNDEF, MaybeUnbound, PathDead, SBoundLib, SClass, SEnumMember, SExcClass, SFunc, SIdx,
                      SLib, SObj, SOpaque, SSel, SSeq, SStr, SVec, SymRaise, Undefined, Unsupported,
                      is_num, is_z3, to_fraction, to_real, to_z3)
 
@@ -869,6 +869,11 @@ class Interp:
             le = l.elem if isinstance(l, SVec) else l
             re_ = r.elem if isinstance(r, SVec) else r
             return SVec(self.compare(op, le, re_, node, frame), (l if isinstance(l, SVec) else r).length)
+        if (isinstance(l, SArr) or isinstance(r, SArr)) and not (isinstance(l, list) and isinstance(r, list) and isinstance(op, (ast.Eq, ast.NotEq)) and not (isinstance(l, SArr) and isinstance(r, SArr))):
+            n = len(l) if isinstance(l, SArr) else len(r)
+            la = list(l) if isinstance(l, (list, tuple)) else [l] * n
+            ra = list(r) if isinstance(r, (list, tuple)) else [r] * n
+            return SArr(self.compare(op, a, b, node, frame) for a, b in zip(la, ra))
         for side in (l, r):
             if hasattr(side, "sym_compare"):
                 return side.sym_compare(self, op, l, r, node)
@@ -955,6 +960,13 @@ class Interp:
                 raise Unsupported("read of an unwritten vector element", node)
             ln = (l if isinstance(l, SVec) else r).length
             return SVec(self.binop(op, le, re_, node, frame), ln)
+        if isinstance(l, SArr) or isinstance(r, SArr):
+            n = len(l) if isinstance(l, SArr) else len(r)
+            if isinstance(l, (list, tuple)) and isinstance(r, (list, tuple)) and len(l) != len(r):
+                raise Unsupported("broadcast of arrays of different static length", node)
+            la = list(l) if isinstance(l, (list, tuple)) else [l] * n
+            ra = list(r) if isinstance(r, (list, tuple)) else [r] * n
+            return SArr(self.binop(op, a, b, node, frame) for a, b in zip(la, ra))
         for side in (l, r):
             if hasattr(side, "sym_binop"):
                 return side.sym_binop(self, op, l, r, node)
